@@ -62,6 +62,19 @@ func (e ExitReason) GetHostCallID() uint8 {
 	return uint8(e)
 }
 
+// HostCallIndex returns the full host-call identifier of a host-call exit. The identifier is
+// the ecalli immediate (A.5.2), a 32-bit value sign-extended to 64 bits; its low 32 bits are
+// what the exit word stores.
+func (e ExitReason) HostCallIndex() uint64 {
+	return uint64(int64(int32(uint32(e))))
+}
+
+// hostCallExit builds the host-call exit for an ecalli immediate without touching the
+// reason-type byte of the word.
+func hostCallExit(nuX uint64) ExitReason {
+	return ExitHostCall | ExitReason(uint32(nuX))
+}
+
 func (e ExitReason) GetPageFaultAddress() uint32 {
 	return uint32(e)
 }
